@@ -317,6 +317,9 @@ func (c *Client) UpdateNeoFSAlphabetList(alphas keys.PublicKeys, txHash util.Uin
 // Note: true await flag always means additional subscription for [Client] which
 // is always limited on server side, use it carefully.
 func (c *Client) NotaryInvoke(ctx context.Context, contract util.Uint160, await bool, fee fixedn.Fixed8, nonce uint32, vub *uint32, method string, args ...any) (util.Uint256, error) {
+	if ok, _, err := c.verifIntercept("NotaryInvoke", contract, method, args); ok {
+		return util.Uint256{}, err
+	}
 	if c.notary == nil {
 		return util.Uint256{}, c.Invoke(ctx, contract, false, false, fee, method, args...)
 	}
@@ -332,6 +335,9 @@ func (c *Client) NotaryInvoke(ctx context.Context, contract util.Uint160, await 
 // Note: true await flag always means additional subscription for [Client] which
 // is always limited on server side, use it carefully.
 func (c *Client) NotaryInvokeNotAlpha(contract util.Uint160, await bool, fee fixedn.Fixed8, method string, args ...any) error {
+	if ok, _, err := c.verifIntercept("NotaryInvokeNotAlpha", contract, method, args); ok {
+		return err
+	}
 	if c.notary == nil {
 		return c.Invoke(context.TODO(), contract, await, false, fee, method, args...)
 	}
@@ -623,6 +629,9 @@ func (c *Client) logNotaryCall(method string, vub uint32, mainTx util.Uint256, f
 }
 
 func (c *Client) runAlphabetNotaryScript(ctx context.Context, script []byte, nonce uint32, await, invokedByAlpha bool) error {
+	if ok, _, err := c.verifIntercept("runAlphabetNotaryScript", script, invokedByAlpha); ok {
+		return err
+	}
 	if c.notary == nil {
 		panic("notary support is not enabled")
 	}
@@ -882,6 +891,9 @@ func CalculateNotaryDepositAmount(c *Client, gasMul, gasDiv int64) (fixedn.Fixed
 // CalculateNonceAndVUB calculates nonce and ValidUntilBlock values
 // based on transaction hash.
 func (c *Client) CalculateNonceAndVUB(hash util.Uint256) (nonce uint32, vub uint32, err error) {
+	if ok, _, err := c.verifIntercept("CalculateNonceAndVUB", hash); ok {
+		return 1, 1000, err
+	}
 	var conn = c.conn.Load()
 
 	if conn == nil {
